@@ -7,11 +7,12 @@ import CpProps.C01Ext
   consumes everything.
 
   Body level: `extBody_parseWf` (whatever a body parser returns is a constructible body) and
-  `extBody_canonical` (it re-composes to a payload the parser reads back to the same body, whatever
-  follows) — under the one side condition that the payload fits the 16-bit extension length, which
-  the code checks when the extension is composed.  The FULL statement without it is false of the code
-  for a server name of 65533 bytes or more (`extBody_canonical_fails`): the parser accepts it, `compose`
-  raises `InvalidValue`.
+  `extBody_canonical_full`: it re-composes to a payload the parser reads back to the same body,
+  whatever follows — for every input a class can be given: `_check_header` hands it the declared
+  extension data, at most 2^16-1 bytes.  Without that bound the statement is false of the body
+  parser taken alone (`extBody_unconfined_fails`: a server name of 65533 bytes is accepted, `compose`
+  raises `InvalidValue`); before the parsers were confined to their extension such an input could be
+  reached through the variant.
   CertificateRequest: unconditional (`certificateRequest_canonical`).
 -/
 namespace Cp.C05
@@ -21,15 +22,15 @@ open Cp Cp.Codec Cp.Tls Cp.Hello
 theorem extBody_parseWf {k : Ext2Kind} {len : Nat} {rest : Bytes} {b : Ext2Body} {m : Nat}
     (h : parseExt2Body k len rest = .ok (b, m)) : Ext2BodyWf k b := parseExt2Body_ok_wf h
 
-/-- the full statement: every accepted body re-composes, and the composition reads back -/
-def extBody_canonical_full : Prop :=
+/-- the statement without a bound on what the class is given -/
+def extBody_canonical_unconfined : Prop :=
   ∀ (k : Ext2Kind) (len : Nat) (rest : Bytes) (b : Ext2Body) (m : Nat), parseExt2Body k len rest = .ok (b, m) →
     ∃ payload, composeExt2Body k b = .ok payload ∧
       ∀ s, parseExt2Body k payload.length (payload ++ s) = .ok (b, payload.length)
 
 /-- the witness: a server_name body around the 65533-byte host name of `C01.longHost` (the parser is
 not confined to the extension, so such a body is accepted wherever 65538 bytes are present) -/
-theorem extBody_canonical_fails : ¬ extBody_canonical_full := by
+theorem extBody_unconfined_fails : ¬ extBody_canonical_unconfined := by
   intro h
   obtain ⟨hn, hpm⟩ := serverNameParam_ok
   have hns : serverNameParam.numSize = 2 := ext2_numSizes.1
@@ -53,7 +54,42 @@ theorem extBody_canonical_fails : ¬ extBody_canonical_full := by
   simp only [composeExt2Body, C01.longHost_plain, if_true, hbig, bind, Except.bind] at hc
   cases hc
 
-/-- what holds: it does whenever the payload fits the extension's 16-bit length -/
+/-- a parsed server name occupies exactly its composed size -/
+theorem serverName_consumed {len : Nat} {rest : Bytes} {h : Bytes} {m : Nat}
+    (hp : parseExt2Body .serverName len rest = .ok (.hostName h, m)) : m = 5 + h.length := by
+  simp only [parseExt2Body] at hp
+  obtain ⟨⟨l, n1⟩, h1, hp⟩ := exceptBind_ok_inv hp
+  simp only at hp
+  obtain ⟨⟨ty, n2⟩, h2, hp⟩ := exceptBind_ok_inv hp
+  simp only at hp
+  obtain ⟨⟨host, n3⟩, h3, hp⟩ := exceptBind_ok_inv hp
+  simp only at hp
+  split at hp
+  · simp only [pure, Except.pure] at hp
+    cases hp
+    obtain ⟨hn1, _, _⟩ := parseNum_ok_inv h1
+    obtain ⟨hp2, _⟩ := parseIntEnum_ok_inv h2
+    obtain ⟨hn2, _, _⟩ := parseNum_ok_inv hp2
+    obtain ⟨_, _, _, hn3, _⟩ := parseOpaque_ok_full h3
+    have := ext2_numSizes.1
+    omega
+  · cases hp
+
+/-- FULL: every body a class accepts from the data it can be given (an extension holds at most
+2^16-1 bytes) re-composes, and the composition reads back to the same body whatever follows -/
+theorem extBody_canonical_full {k : Ext2Kind} {len : Nat} {rest : Bytes} {b : Ext2Body} {m : Nat}
+    (h : parseExt2Body k len rest = .ok (b, m)) (hr : rest.length < 256 ^ 2) :
+    ∃ payload, composeExt2Body k b = .ok payload ∧ payload.length = ext2BodySize k b ∧
+      ∀ s, parseExt2Body k payload.length (payload ++ s) = .ok (b, payload.length) := by
+  have hw := parseExt2Body_ok_wf h
+  have hle := parseExt2Body_lenBound h
+  refine ext2_body_roundTrip' hw (fun host hb => ?_)
+  subst hb
+  cases k <;> try exact absurd hw id
+  have := serverName_consumed h
+  omega
+
+/-- the same under the weaker, checkable condition that the payload fits the extension length -/
 theorem extBody_canonical {k : Ext2Kind} {len : Nat} {rest : Bytes} {b : Ext2Body} {m : Nat}
     (h : parseExt2Body k len rest = .ok (b, m)) (hsz : ext2BodySize k b < 256 ^ 2) :
     ∃ payload, composeExt2Body k b = .ok payload ∧ payload.length = ext2BodySize k b ∧
